@@ -23,7 +23,8 @@ def run(ctx):
         backup.model_check(ctx, 3, [2, 1, 0], 1)
         backup.model_check(ctx, 3, [1, 1, 1], 2)
     rng = random.Random(vlib.seed())
-    configs = [dict(conc=1), dict(conc=2, kv=True, mm=True)]
+    # fixkey + many items per shard: runs of consecutive equal-length keys, whose CRC32s cancel in the XOR checksum
+    configs = [dict(conc=1), dict(conc=2, kv=True, mm=True), dict(conc=2, fixkey=True, items=200)]
     if T:
         configs += [dict(conc=8, kv=True), dict(conc=16, mm=True), dict(conc=1, delta=True), dict(conc=2, delta=True, mm=True, gcduring=True),
                     dict(conc=1, older=True), dict(conc=3, older=True, kv=True), dict(conc=2, kv=True, lblk=16), dict(conc=4, delta=True, lblk=64), dict(conc=2, delta=True, gcduring=True, mm=True, writers=vlib.NCPU + 3)]
@@ -41,7 +42,7 @@ def run(ctx):
             extra.append("-older")
         if o.get("writers"):
             extra += ["-writers", str(o["writers"])]
-        items = 40 if not T else rng.choice([24, 40, 60])
+        items = o.get("items") or (40 if not T else rng.choice([24, 40, 60]))
         g = backup.gen(ctx, base, vlib.seed() * 100 + ci, items, backup.opt_list(o), extra)
         if g["ret"] != "ok":
             raise Infra("bk-gen: StoreToDisk failed without faults: " + g["ret"])
